@@ -25,7 +25,7 @@ pub fn cfg() -> AspCfg {
     AspCfg {
         preds: vec![("p".into(), 1), ("q".into(), 1), ("r".into(), 2), ("s".into(), 0), ("p".into(), 2)],
         // names that collide with the translator's fresh variables
-        vars: vec!["X".into(), "Y".into(), "I".into(), "J".into(), "K".into(), "Q".into(), "R".into(), "Z".into(), "Z1".into(), "V1".into(), "V".into(), "V2".into()],
+        vars: vec!["X".into(), "Y".into(), "I".into(), "J".into(), "K".into(), "Q".into(), "R".into(), "Z".into(), "Z1".into(), "V1".into(), "V".into(), "V2".into(), "V8".into(), "V98".into()],
         syms: vec!["a".into(), "b".into()],
         num_lo: -3,
         num_hi: 4,
@@ -425,7 +425,9 @@ impl Check for FrontEnd {
         }
         if case.via_cli {
             if let Some(bin) = crate::cli::anthem_bin() {
-                let r = crate::cli::run(&bin, &["translate", "--with", "tau-star"], Some(&text));
+                // as a user would write it: comments and blank lines between the rules
+                let commented: String = std::iter::once("% program\n\n".to_string()).chain(text.lines().map(|l| format!("{l} % rule\n\n"))).collect();
+                let r = crate::cli::run(&bin, &["translate", "--with", "tau-star"], Some(&commented));
                 let expected = format!("{}", case.program.clone().tau_star());
                 if r.code != Some(0) || r.stdout.trim() != expected.trim() {
                     return Outcome::fail(
